@@ -528,7 +528,7 @@ pub fn run(ctx: &mut Ctx) -> Result<(), Stop> {
     if ctx.want_desc {
         ctx.out.desc = Some(json!({
             "rule": "non-trivial = at least 4 operations including at least 2 allocations",
-            "scenario": (["short mixed", "bursts across block boundaries", "fill all 32768 ids"][scenario]),
+            "scenario": (["short mixed", "bursts across block boundaries", "fill all 32768 ids", "burst, drain, second burst"][scenario]),
             "ops": ops, "first_ops": desc,
         }));
     }
